@@ -1098,3 +1098,39 @@ func (en *env) havoc(m ast.Expr, at *node) {
 	}
 	en.errf("unsupported modifies target %s", types.ExprString(m))
 }
+
+// splitClauseAST splits a clause into separately provable parts at the level of the contract text:
+// top-level && and implications whose consequent is a conjunction (a ==> b && c gives a ==> b, a ==> c).
+// Splitting terms instead would also split conjunctions produced by simplification (e.g. the equality of
+// an ite-chain with a constant), multiplying obligations.
+func splitClauseAST(e ast.Expr) []ast.Expr {
+	switch x := e.(type) {
+	case *ast.ParenExpr:
+		return splitClauseAST(x.X)
+	case *ast.BinaryExpr:
+		if x.Op == token.LAND {
+			return append(splitClauseAST(x.X), splitClauseAST(x.Y)...)
+		}
+	case *ast.CallExpr:
+		if id, ok := x.Fun.(*ast.Ident); ok && id.Name == "implies__" && len(x.Args) == 2 {
+			parts := splitClauseAST(x.Args[1])
+			if len(parts) > 1 {
+				var out []ast.Expr
+				for _, p := range parts {
+					out = append(out, &ast.CallExpr{Fun: x.Fun, Args: []ast.Expr{x.Args[0], p}})
+				}
+				return out
+			}
+		}
+	}
+	return []ast.Expr{e}
+}
+
+// evalGoalParts evaluates the parts of a clause; the conjunction of the results is the clause.
+func (en *env) evalGoalParts(e ast.Expr) []*smt.Term {
+	var out []*smt.Term
+	for _, p := range splitClauseAST(e) {
+		out = append(out, en.evalBool(p))
+	}
+	return out
+}
